@@ -186,6 +186,30 @@ std::optional<std::uint64_t> parse_uint64(const std::string& text) {
     return value;
 }
 
+// A field value travels on a single KEY:VALUE line, so line breaks (and the escape character itself)
+// are escaped; the control client reverses this. Multi-line values such as ENTRIES survive intact.
+std::string escape_field_value(const std::string& value) {
+    std::string escaped;
+    escaped.reserve(value.size());
+    for (const char ch : value) {
+        switch (ch) {
+            case '\\':
+                escaped += "\\\\";
+                break;
+            case '\n':
+                escaped += "\\n";
+                break;
+            case '\r':
+                escaped += "\\r";
+                break;
+            default:
+                escaped.push_back(ch);
+                break;
+        }
+    }
+    return escaped;
+}
+
 bool constant_time_equal(const std::string& expected, const std::string& provided) {
     if (expected.size() != provided.size()) {
         return false;
@@ -663,7 +687,7 @@ private:
         std::ostringstream oss;
         oss << "STATUS:" << (success ? "OK" : "ERROR") << "\n";
         for (const auto& [key, value] : fields) {
-            oss << key << ':' << value << "\n";
+            oss << key << ':' << escape_field_value(value) << "\n";
         }
         oss << "\n";
         const auto response = oss.str();
